@@ -518,7 +518,10 @@ def j_sorted(kind, pre, ln):
                 return "%s is not monotone: priorities %s" % (ln.op, ps)
         return None
     if ln.op == "into_sorted_iter":
-        rem = dict(c)
+        # remaining priorities as a multiset: with ties the identity of the elements skipped by nth / nth_back is not
+        # observable, only their priorities are determined
+        remp = sorted(v[1] for v in c.values())
+        yielded = set()
         i = 0
         calls = ln.args[1:]
         for call in calls:
@@ -530,39 +533,33 @@ def j_sorted(kind, pre, ln):
                     return "sorted iterator answered %s to an advancing call" % t[i]
                 e, i = parse_opt_e(t, i + 1)
                 from_max = kind == "pq" or ck == "b"
-                # the elements skipped by nth / nth_back are the `skip` current extremes
-                ps = sorted((v[1] for v in rem.values()), reverse=from_max)
-                if len(ps) <= skip:
+                if len(remp) <= skip:
                     if e is not None:
-                        return "sorted iterator yielded %s although only %d elements remained for %s" % (e, len(ps), call)
-                    rem = {}
+                        return "sorted iterator yielded %s although only %d elements remained for %s" % (e, len(remp), call)
+                    remp = []
                     continue
                 if e is None:
-                    return "sorted iterator returned None with %d elements remaining (call %s)" % (len(rem), call)
-                if rem.get(e[0]) != (e[1], e[2]):
-                    return "sorted iterator yielded %s which is not among the remaining elements" % (e,)
-                if e[2] != ps[skip]:
-                    return "sorted iterator yielded priority %d, but the %s due after skipping %d is %d" % (e[2], "maximum" if from_max else "minimum", skip, ps[skip])
-                # remove the skipped extremes (identity among ties is not observable: remove by priority) and the yielded one
-                del rem[e[0]]
-                for pr in ps[:skip]:
-                    for k2 in list(rem):
-                        if rem[k2][1] == pr:
-                            del rem[k2]
-                            break
+                    return "sorted iterator returned None with %d elements remaining (call %s)" % (len(remp), call)
+                if c.get(e[0]) != (e[1], e[2]) or e[0] in yielded:
+                    return "sorted iterator yielded %s which is not a stored element not yet yielded" % (e,)
+                want = remp[-1 - skip] if from_max else remp[skip]
+                if e[2] != want:
+                    return "sorted iterator yielded priority %d, but the %s due after skipping %d is %d" % (e[2], "maximum" if from_max else "minimum", skip, want)
+                yielded.add(e[0])
+                remp = remp[: len(remp) - skip - 1] if from_max else remp[skip + 1:]
             elif ck == "l":
                 if t[i] == "u":
                     i += 1
                     continue
-                if int(t[i + 1]) != len(rem):
-                    return "sorted iterator len() = %s with %d remaining" % (t[i + 1], len(rem))
+                if int(t[i + 1]) != len(remp):
+                    return "sorted iterator len() = %s with %d remaining" % (t[i + 1], len(remp))
                 i += 2
             elif ck == "h":
                 lo, hi = int(t[i + 1]), t[i + 2]
-                if kind == "dpq" and (lo != len(rem) or hi != str(len(rem))):
-                    return "sorted iterator size_hint() = (%s, %s) with %d remaining" % (lo, hi, len(rem))
-                if lo > len(rem) or (hi != "none" and int(hi) < len(rem)):
-                    return "sorted iterator size_hint() = (%s, %s) is wrong for %d remaining" % (lo, hi, len(rem))
+                if kind == "dpq" and (lo != len(remp) or hi != str(len(remp))):
+                    return "sorted iterator size_hint() = (%s, %s) with %d remaining" % (lo, hi, len(remp))
+                if lo > len(remp) or (hi != "none" and int(hi) < len(remp)):
+                    return "sorted iterator size_hint() = (%s, %s) is wrong for %d remaining" % (lo, hi, len(remp))
                 i += 3
     return None
 
@@ -670,6 +667,7 @@ def judge_case(prop, kind, lines):
     judge of `prop` fails, or None."""
     pre = parse_snap("m 0 h 0 q 0 s 0")   # every case starts from a fresh (`new`) queue
     k = kind
+    order_unspecified = False   # after a leaked iter_mut guard the order is unspecified (C01/C02 speak of dropped guards)
     for idx, text in enumerate(lines):
         try:
             ln = parse_line(text)
@@ -679,7 +677,14 @@ def judge_case(prop, kind, lines):
             k = ln.args[0]
             pre = ln.snap
             continue
+        if ln.op == "iter_mut" and ln.args and ln.args[0] == "forget":
+            order_unspecified = True
+        elif ln.op in ("clear", "drain", "from_vec", "from_iter", "deser", "serde_rt", "convert", "retain", "retain_mut", "append") or (
+                ln.op == "iter_mut" and ln.args and ln.args[0] == "drop"):
+            order_unspecified = False   # these rebuild the whole heap (or empty it)
         for j in JUDGES.get(prop, []):
+            if order_unspecified and j in (j_extreme, j_sorted):
+                continue
             try:
                 msg = j(k, pre, ln)
             except Exception as ex:
